@@ -788,11 +788,123 @@ pub fn slow_network_scenario(r: &mut Report, seed: u64) {
     }
 }
 
+/// A lookup of the same target ends while a put is in its store phase. The storing nodes acknowledge every
+/// write after 150..350 ms (inside the request timeout); as soon as the write requests are out, the application
+/// runs find_node / get_closest_nodes / a read of the very target the put writes to - lookups whose answers
+/// carry no write token (find_node) or that find nothing. Every storing node acknowledged in time: the put
+/// must return Ok, whatever those lookups ended with.
+pub fn lookup_during_store_scenario(r: &mut Report, seed: u64) {
+    r.eval();
+    let mut rng = Rng::new(seed);
+    let w = World::with_cfg(seed, NetCfg { lat_min: MS, lat_max: 30 * MS, random_ties: true }, TraceLevel::Off);
+    let n = 1 + rng.usize(8);
+    let kind = rng.usize(4);
+    let second = rng.usize(3);
+    let second_name = ["find_node", "get_closest_nodes", "a read of the same target"][second];
+    let ack_delay = (150 + rng.below(200)) * MS;
+    let tokenless_later = rng.bool();
+    let case = json!({"class":"lookup-during-store","tokenless_after_the_writes":tokenless_later,"seed":seed.to_string(),"endpoints":n,"put_kind":kind,"second_call":second_name,"ack_delay_ms":ack_delay / MS});
+    let ends: Vec<([u8; 20], SocketAddrV4)> = (0..n).map(|i| (rng.array(), SocketAddrV4::new(Ipv4Addr::new(10, 6, 0, 1 + i as u8), 6881))).collect();
+    let socks: Vec<SockId> = ends.iter().map(|e| w.raw(e.1)).collect();
+    let index: HashMap<SockId, usize> = socks.iter().enumerate().map(|(i, s)| (*s, i)).collect();
+    let writes_seen = Rc::new(RefCell::new(0u64));
+    {
+        let (ends2, ws) = (ends.clone(), writes_seen.clone());
+        w.set_responder(Some(Box::new(move |w, sock, d| {
+            let Some(q) = Krpc::parse(&d.bytes) else { return true };
+            if q.y != b'q' {
+                return true;
+            }
+            let me = ends2[index[&sock]].0;
+            let name = q.q.clone().unwrap_or_default();
+            let mut rd = vec![("id", B::bytes(&me))];
+            if matches!(name.as_str(), "put" | "announce_peer" | "announce_signed_peer") {
+                *ws.borrow_mut() += 1;
+                w.raw_send_delayed(sock, &response(&q.t, B::dict(rd), Some(&d.from), Some(&VERSION_RS6)).encode(), d.from, ack_delay);
+                return true;
+            }
+            rd.push(("nodes", B::Bytes(nodes_bytes(&ends2))));
+            // once the writes are out, lookups are answered without a write token (in half of the worlds): the
+            // lookup that ends during the store phase then has no node to write to - which is no business of the put
+            if name != "find_node" && name != "ping" && !(tokenless_later && *ws.borrow() > 0) {
+                rd.push(("token", B::bytes(b"tokn")));
+            }
+            w.raw_send(sock, &response(&q.t, B::dict(rd), Some(&d.from), Some(&VERSION_RS6)).encode(), d.from);
+            true
+        })));
+    }
+    let boots: Vec<SocketAddrV4> = ends.iter().map(|e| e.1).collect();
+    let x = w.spawn(if rng.bool() { NodeSpec::server(Ipv4Addr::new(10, 6, 9, 9), &boots) } else { NodeSpec::client(Ipv4Addr::new(10, 6, 9, 9), &boots) }).expect("x");
+    w.block_on(x.adht.bootstrapped(), 60 * SEC);
+    let signer = SigningKey::from_bytes(&rng.array::<32>());
+    let value = rng.blob(3, 40);
+    let ih = Id::from(rng.array::<20>());
+    let item = MutableItem::new(&signer, &value, 4, None);
+    let (request, target) = match kind {
+        0 => (PutRequestSpecific::PutImmutable(PutImmutableRequestArguments { target: Id::from(immutable_target(&value)), v: value.clone().into_boxed_slice() }), Id::from(immutable_target(&value))),
+        1 => (PutRequestSpecific::PutMutable(PutMutableRequestArguments::from(item.clone(), None)), *item.target()),
+        2 => (PutRequestSpecific::AnnouncePeer(AnnouncePeerRequestArguments { info_hash: ih, port: 4000, implied_port: None }), ih),
+        _ => {
+            let ts = w.unix_micros();
+            let sg = super::srv::sign_announce(&signer, ih.as_bytes(), ts);
+            (PutRequestSpecific::AnnounceSignedPeer(AnnounceSignedPeerRequestArguments { info_hash: ih, t: ts, k: sg.k, sig: sg.sig }), ih)
+        }
+    };
+    let rx = put_raw(&x.dht, request, None);
+    let mut put_task = Task::new(w.now(), async move { rx.recv_async().await });
+    // until the write requests are out
+    let ws = writes_seen.clone();
+    let mut pt_done = false;
+    w.run_until(30 * SEC, |w| {
+        pt_done = put_task.poll(w.now());
+        pt_done || *ws.borrow() > 0
+    });
+    r.count("lookup_during_store_scenarios");
+    if pt_done || *writes_seen.borrow() == 0 {
+        r.count("lookup_during_store/premise-unmet");
+        drop(x);
+        return;
+    }
+    let a = x.adht.clone();
+    let key = signer.verifying_key().to_bytes();
+    let second_done = match second {
+        0 => w.block_on(async move { drop(a.find_node(target).await) }, 30 * SEC).is_some(),
+        1 => w.block_on(async move { drop(a.get_closest_nodes(target).await) }, 30 * SEC).is_some(),
+        _ => match kind {
+            0 => w.block_on(async move { drop(a.get_immutable(target).await) }, 30 * SEC).is_some(),
+            1 => w.block_on(async move { drop(a.get_mutable_most_recent(&key, None).await) }, 30 * SEC).is_some(),
+            2 => w.block_on(async move { use futures_lite::StreamExt; drop(a.get_peers(target).collect::<Vec<_>>().await) }, 30 * SEC).is_some(),
+            _ => w.block_on(async move { use futures_lite::StreamExt; drop(a.get_signed_peers(target).await.collect::<Vec<_>>().await) }, 30 * SEC).is_some(),
+        },
+    };
+    let still_pending = !put_task.poll(w.now());
+    let done = w.run_until(60 * SEC, |w| put_task.poll(w.now()));
+    let res = put_task.result.take();
+    if still_pending {
+        r.count("lookup_during_store/second_call_ended_while_the_put_was_waiting_for_acknowledgements");
+        r.nontrivial(mix(seed, (kind * 3 + second) as u64));
+    }
+    if !done || !second_done {
+        r.violation(&format!("result/did-not-complete/lookup-during-store/{}", second_name.replace(' ', "-")), "the put or the call made during its store phase did not complete", case.clone(), json!({"put_completed": done, "second_completed": second_done}));
+    } else if !matches!(res, Some(Ok(Ok(_)))) {
+        r.violation(&format!("result/error-despite-ack/lookup-during-store/{}", second_name.replace(' ', "-")), "every storing node acknowledged the write within the request timeout, yet the put did not return Ok: a lookup of the same target ended in between", case.clone(), json!({"result": format!("{res:?}"), "write_requests_seen": *writes_seen.borrow(), "second_call_ended_before_the_put": still_pending}));
+    }
+    drop(x);
+    for (thread, loc, msg) in crate::take_panics() {
+        r.violation(&format!("panic/{}", loc.replace("/repo/", "")), &format!("thread {thread} panicked: {msg}"), case.clone(), json!({}));
+    }
+}
+
 pub fn run(a: &Args) -> Report {
     let mut r = Report::new("C08");
     if let Some(path) = &a.replay {
         let v: Value = serde_json::from_str(&std::fs::read_to_string(path).unwrap_or_default()).unwrap_or_default();
         let c = &v["case"];
+        if c["class"].as_str() == Some("lookup-during-store") {
+            let seed = c["seed"].as_str().and_then(|s| s.parse().ok()).unwrap_or(1);
+            super::guarded(&mut r, c.clone(), |r| lookup_during_store_scenario(r, seed));
+            return r;
+        }
         if c["class"].as_str() == Some("slow-network") {
             let seed = c["seed"].as_str().and_then(|s| s.parse().ok()).unwrap_or(1);
             super::guarded(&mut r, c.clone(), |r| slow_network_scenario(r, seed));
@@ -838,6 +950,10 @@ pub fn run(a: &Args) -> Report {
         r.count("held_scenarios");
         let seed = rng.u64();
         super::guarded(&mut r, json!({"class":"overlapping-puts-held","seed":seed.to_string()}), |r| overlap_held_scenario(r, seed));
+        for _ in 0..4 {
+            let seed = rng.u64();
+            super::guarded(&mut r, json!({"class":"lookup-during-store","seed":seed.to_string()}), |r| lookup_during_store_scenario(r, seed));
+        }
         for _ in 0..2 {
             let seed = rng.u64();
             super::guarded(&mut r, json!({"class":"late-replies-of-an-earlier-put","seed":seed.to_string()}), |r| late_reply_scenario(r, seed));
